@@ -2,6 +2,7 @@
 import os
 from common import *
 import elfimg
+import c01
 
 RULE = ("well-formed images (typed, random, small bundled examples) and mutated/truncated images that still load, each loaded eagerly "
         "(object 0) and lazily from a file that stays open (object 1); the same random interleaving (length <= 24; exhaustive length "
@@ -157,8 +158,21 @@ def xlat_case(cid, rng, im, b):
 
 
 def safe_to_save(im):
-    return all(s["addr"] < 2**24 and s["size"] < 2**20 and s["addralign"] < 2**16 for s in im.sections) and \
-        all(g["vaddr"] < 2**24 and g["align"] < 2**16 and g["memsz"] < 2**24 for g in im.segments)
+    if not (all(s["addr"] < 2**24 and s["size"] < 2**20 and s["addralign"] < 2**16 for s in im.sections) and
+            all(g["vaddr"] < 2**24 and g["align"] < 2**16 and g["memsz"] < 2**24 for g in im.segments)):
+        return False
+    # the writer derives a member's file position from (section address - segment address): a section that
+    # falls into a segment (by file range or by address range) with an address below the segment's makes it pad
+    # by almost 2^64 bytes (outside the writer's domain: members are allocated and lie at or after the segment's address)
+    for g in im.segments:
+        for s in im.sections:
+            if s["type"] == 0:
+                continue
+            by_off = g["offset"] <= s["offset"] and s["offset"] + s["size"] <= g["offset"] + g["filesz"] and s["offset"] < g["offset"] + g["filesz"]
+            by_addr = g["vaddr"] <= s["addr"] and s["addr"] + s["size"] <= g["vaddr"] + g["memsz"] and s["addr"] < g["vaddr"] + g["memsz"]
+            if (by_off or by_addr) and s["addr"] < g["vaddr"]:
+                return False
+    return True
 
 
 def images(rng, tier):
@@ -188,7 +202,16 @@ def generate(rng, tier):
     # mutated images that may still load
     for i in range(60 if tier == "quick" else 600):
         im, b = imgs[i % len(imgs)]
-        mb, desc = elfimg.mutate(b, im, rng, k=rng.choice([1, 2]))
+        for _try in range(6):
+            mb, desc = elfimg.mutate(b, im, rng, k=rng.choice([1, 2]))
+            # every observation here walks all sections and all segments (membership is computed for every pair at
+            # load time): a mutation that turns a table count into tens of thousands makes one case run for minutes
+            # in both interpreters; C01/C18 cover such counts with sampled observations, here they are re-drawn
+            shn, phn = c01.table_counts(mb)
+            if shn <= 400 and phn <= 400:
+                break
+        else:
+            mb = b
         ns, ng = min(len(im.sections), 40), min(len(im.segments), 10)
         c = lazy_case("m%d" % i, rng, mb, ns, ng)
         cases.append(c)
